@@ -491,3 +491,7 @@ func (e *ExistsSubquery) Eval(ctx *Context, row Row) (any, error) {
 	}
 	return has, nil
 }
+
+type NullSafeEquals struct{ comparison }
+
+func NewNullSafeEquals(l, r Expression) *NullSafeEquals { return &NullSafeEquals{newComparison(l, r)} }
